@@ -7,6 +7,8 @@ def run(P, R, L):
              "largest_key()/Range::end) sits in a smallest slot or vice versa; the four accessors touch the field they are named after")
     R.clause("ROLE-2", "FileMetadata codec: the k-th key/scalar written is read back into the setter of the same role, in the same order")
     K.role1(P, R, L)
+    R.clause("ROLE-3", "level roles of version edits")
+    K.role3_levels(P, R, L)
     R.clause("PAIR-3", "file bounds are captured from the entries actually added to the table (flush and compaction)")
     K.pair3(P, R, L)
     R.not_decided += ["disjointness / sortedness of a level for a concrete history (runtime assertion in VersionBuilder::maybe_add_file)",
